@@ -28,6 +28,7 @@ properties! {
     "C01" => c01,
     "C02" => c02,
     "C03" => c03,
+    "C04" => c04,
     "C05" => c05,
     "C06" => c06,
     "C19" => c19,
